@@ -391,7 +391,7 @@ Lemma obs_deferred : forall S lad (f1 f2 : final S), obs_of f1 = obs_of f2 -> ob
 Proof.
   intros S lad f1 f2 E. unfold obs_of, deferred in *. cbn [f_res f_out f_active f_closed] in *.
   inversion E as [[X1 X2 X3 X4 X5]]. rewrite X1, X3, X4, X5.
-  destruct (Gen.smtp_auth_deactivation_deferred); destruct lad; try reflexivity; rewrite X2; reflexivity.
+  destruct (Gen.smtp_auth_deactivation_deferred); destruct (Gen.smtp_auth_defer_unconditional); destruct lad; try reflexivity; rewrite X2; reflexivity.
 Qed.
 
 Lemma scram_obs_independent_of_history : forall H HMAC hsize precis cfg id lad a0 st st' rands script,
